@@ -880,12 +880,29 @@ func GenC16(seed, index uint64, build string, funcs []string) *Run {
 	r := prng.New(prng.Mix(seed, index))
 	run := &Run{Prop: "C16", Seed: seed, Index: index, Build: build, NE: 1 + r.N(3), NS: 1 + r.N(3), Arena: true}
 	run.ObsAll = r.P(0.3)
+	run.Aux = r.P(0.5)
 	g := newGen(r, run)
 	// setup: make the shared variables interesting (Z != 1, identities, near-n scalars)
 	g.wE["e.equal"] = 0
 	g.wS["s.equal"] = 0
 	g.wS["s.random"] = 0
-	run.Setup = g.program(2+r.N(10), 0.6, 0.15)
+	for i := 0; i < run.NE; i++ {
+		if r.P(0.85) {
+			g.emit(&run.Setup, Op{K: "e.decode", R: i, B: []Bytes{g.bytesArg(g.goodElementBytes(g.pointVal(), "e.decode"), "enc")}})
+			if r.P(0.6) { // leave the shared element in a non-normalised representation
+				g.emit(&run.Setup, Op{K: "e.double", R: i})
+				if r.P(0.5) {
+					g.emit(&run.Setup, Op{K: "e.negate", R: i})
+				}
+			}
+		}
+	}
+	for i := 0; i < run.NS; i++ {
+		if r.P(0.85) {
+			g.emit(&run.Setup, Op{K: "s.decode", R: i, B: []Bytes{g.bytesArg(be32(g.scalarVal()), "enc")}})
+		}
+	}
+	run.Setup = append(run.Setup, g.program(r.N(8), 0.6, 0.15)...)
 	// shared state for the tasks
 	shared := g.m
 	nt := 2 + r.N(3)
@@ -909,14 +926,38 @@ func GenC16(seed, index uint64, build string, funcs []string) *Run {
 		tg.wE["e.mul"] *= 0.3
 		tg.wS["s.random"] *= 0.5
 		_ = heavy
+		// most tasks start by loading their variables from the shared pool, so
+		// that their first real call already works on interesting values
+		var ops []Op
+		if r.P(0.8) {
+			for i := 0; i < run.NE; i++ {
+				if r.P(0.7) {
+					k := "e.set"
+					if r.P(0.3) {
+						k = "e.copy"
+					}
+					tg.emit(&ops, Op{K: k, R: i, A: []int{-(r.N(run.NE) + 2)}})
+				}
+			}
+			for i := 0; i < run.NS; i++ {
+				if r.P(0.7) {
+					k := "s.set"
+					if r.P(0.3) {
+						k = "s.copy"
+					}
+					tg.emit(&ops, Op{K: k, R: i, A: []int{-(r.N(run.NS) + 2)}})
+				}
+			}
+		}
 		n := 1 + r.N(6)
 		if r.P(0.2) {
 			n = 1 + r.N(8)
 		}
-		ops := tg.program(n, 0.4+0.5*r.F(), 0.03)
-		if len(ops) > 10 {
-			ops = ops[:10]
+		body := tg.program(n, 0.4+0.5*r.F(), 0.03)
+		if len(body) > 10 {
+			body = body[:10]
 		}
+		ops = append(ops, body...)
 		run.Tasks = append(run.Tasks, ops)
 		g.entropy, g.events = tg.entropy, tg.events
 	}
